@@ -146,47 +146,47 @@ func c20(c *Ctx) {
 			// every template match happens only on the member edge
 			var effects []ssa.Instruction
 			// the result is what the path says: once built from the template variables the result object is returned, not
-		// handed to anything that may rewrite it (a query decoder with a `domain` key would override the path's name)
-		nRes := 0
-		for _, f := range an.WithAnon(hf) {
-			for _, b := range f.Blocks {
-				for _, in := range b.Instrs {
-					al, ok := in.(*ssa.Alloc)
-					if !ok {
-						continue
-					}
-					tn := typeString(al.Type().Underlying().(*types.Pointer).Elem())
-					if tn != "deeplinks.ResolveParameters" && tn != "deeplinks.JoinParameters" {
-						continue
-					}
-					nRes++
-					var passed []string
-					var walk func(v ssa.Value, depth int)
-					walk = func(v ssa.Value, depth int) {
-						if v.Referrers() == nil || depth > 3 {
-							return
+			// handed to anything that may rewrite it (a query decoder with a `domain` key would override the path's name)
+			nRes := 0
+			for _, f := range an.WithAnon(hf) {
+				for _, b := range f.Blocks {
+					for _, in := range b.Instrs {
+						al, ok := in.(*ssa.Alloc)
+						if !ok {
+							continue
 						}
-						for _, rf := range *v.Referrers() {
-							switch x := rf.(type) {
-							case *ssa.MakeInterface:
-								walk(x, depth+1)
-							case *ssa.ChangeInterface:
-								walk(x, depth+1)
-							case ssa.CallInstruction:
-								passed = append(passed, shortCallee(an.CalleeName(x.Common()))+" at "+c.pos(x.Pos()))
+						tn := typeString(al.Type().Underlying().(*types.Pointer).Elem())
+						if tn != "deeplinks.ResolveParameters" && tn != "deeplinks.JoinParameters" {
+							continue
+						}
+						nRes++
+						var passed []string
+						var walk func(v ssa.Value, depth int)
+						walk = func(v ssa.Value, depth int) {
+							if v.Referrers() == nil || depth > 3 {
+								return
+							}
+							for _, rf := range *v.Referrers() {
+								switch x := rf.(type) {
+								case *ssa.MakeInterface:
+									walk(x, depth+1)
+								case *ssa.ChangeInterface:
+									walk(x, depth+1)
+								case ssa.CallInstruction:
+									passed = append(passed, shortCallee(an.CalleeName(x.Common()))+" at "+c.pos(x.Pos()))
+								}
 							}
 						}
+						walk(al, 0)
+						r.Check(len(passed) == 0, "R20.L", sprintf("result:%s-not-rewritten#%d", strings.TrimPrefix(tn, "deeplinks."), nRes), c.pos(al.Pos()),
+							"the result object is only filled from the template variables and returned; passed on to: "+strings.Join(passed, ", "))
 					}
-					walk(al, 0)
-					r.Check(len(passed) == 0, "R20.L", sprintf("result:%s-not-rewritten#%d", strings.TrimPrefix(tn, "deeplinks."), nRes), c.pos(al.Pos()),
-						"the result object is only filled from the template variables and returned; passed on to: "+strings.Join(passed, ", "))
 				}
 			}
-		}
-		if nRes == 0 {
-			r.Undecide("R20.L", "result:not-rewritten", c.pos(hf.Pos()), "no ResolveParameters / JoinParameters built in resolveHttpLink")
-		}
-		// inside matchPath the two strings are split as they are: trimming or cleaning before the split makes
+			if nRes == 0 {
+				r.Undecide("R20.L", "result:not-rewritten", c.pos(hf.Pos()), "no ResolveParameters / JoinParameters built in resolveHttpLink")
+			}
+			// inside matchPath the two strings are split as they are: trimming or cleaning before the split makes
 			// `//name` and `/name` the same path
 			if mp := c.P.Func(load.DeepPkg, "", "matchPath"); mp != nil {
 				splits := an.CallsNamed(mp, "strings.Split")
